@@ -134,7 +134,9 @@ fn run_property(prop: &str, tier: Tier, rep: &mut Report) -> Plan {
         "C04" => {
             let cases = input::structural_cases(tier);
             input::run_cases(&cases, rep, |_| false);
-            run_hist(tier, if b { &["k256"] } else { &["k256", "libsecp", "ed", "comb-secp"] }, true, rep);
+            if !b {
+                run_hist(tier, &["k256", "libsecp", "ed", "comb-secp"], true, rep);
+            }
             hist::c09_builder_sweep::<K256S>(&[1, 127], 290, 304, rep);
             hist::c09_builder_sweep::<EdS>(&[1, 65535], 290, 304, rep);
             rep.require_class("accept/ref-accept");
@@ -170,7 +172,9 @@ fn run_property(prop: &str, tier: Tier, rep: &mut Report) -> Plan {
         }
         "C08" => {
             run_hist(tier, if b { &["k256", "comb-secp"] } else { &["k256", "libsecp", "ed", "comb-secp", "comb-ed", "fault-ed"] }, true, rep);
+            replay::cross_scheme_histories(rep);
             rep.require_class("merge");
+            rep.require_class("cross-scheme:transitions");
             Plan { rule: hist_rule, assumptions: vec![TRUST, BOUND_HIST, "where the statements are silent the model yields a set of admissible outcomes (DESIGN.md 9)"] }
         }
         "C09" => {
@@ -195,6 +199,7 @@ fn run_property(prop: &str, tier: Tier, rep: &mut Report) -> Plan {
                     run_hist(tier, &["ed"], true, rep);
                 }
             }
+            replay::cross_scheme_histories(rep);
             rep.stats.exhaustive = true;
             for c in ["c09:k256:result>300:err", "c09:k256:result<=300:ok"] {
                 rep.require_class(c);
@@ -214,7 +219,9 @@ fn run_property(prop: &str, tier: Tier, rep: &mut Report) -> Plan {
             input::run_cases(&cases, rep, |_| false);
             let cases = input::authenticity_cases(tier);
             input::run_cases(&cases, rep, |_| false);
-            run_hist(Tier::Quick, if b { &["k256", "comb-secp"] } else { &["k256", "libsecp", "ed", "comb-secp", "comb-ed"] }, false, rep);
+            if !b {
+                run_hist(Tier::Quick, &["k256", "libsecp", "ed", "comb-secp", "comb-ed"], false, rep);
+            }
             rep.stats.exhaustive = true;
             rep.require_class("nontrivial:accept:combined");
             Plan { rule: "every C01/C02 case decoded under all key types: pairwise agreement and the interchangeability relation; every HIST state re-decoded under every other back-end of its scheme", assumptions: vec![TRUST, BOUND_INPUT, "public keys restricted to the 33-byte compressed form or invalid encodings"] }
